@@ -92,6 +92,9 @@ class SetTargetMonitor(taps.Monitor):
             return
         scale = max(1.0, float(np.abs(new.points).max()))
         opts = str(sorted(st["opts"].items(), key=str))
+        # first the query that was most likely evaluated last before the retarget (same input values as then)
+        if tx.maxdiff(t.aligned_source().points, fresh.aligned_source().points) > 1e-7 * scale:
+            ctx.fail("retargeted_alignment_has_another_aligned_source_than_a_fresh_one", cls=cls, mech=opts + ":first_query")
         if tx.maxdiff(t.target.points, fresh.target.points) > 0:
             ctx.fail("retargeted_alignment_has_another_target_than_a_fresh_one", cls=cls, mech=opts, err=tx.maxdiff(t.target.points, fresh.target.points))
         import menpo.transform as mt
@@ -198,6 +201,26 @@ def new_target(rng, t, kind, src):
     return ms.PointCloud(p)
 
 
+def audit_live(ctx, live, just_retargeted):
+    """Every live object (copies included) still is the alignment of its source to its *own* target."""
+    for o in live:
+        if o is just_retargeted or id(o) not in align.SHADOW:
+            continue
+        with taps.quiet():
+            try:
+                fresh = align.rebuild(type(o), o.source.copy(), o.target.copy(), align.SHADOW[id(o)][1])
+            except Exception:
+                continue
+            ctx.tap("audit_other_live_objects", "calls"); ctx.tap("audit_other_live_objects", "checked")
+            scale = max(1.0, float(np.abs(o.target.points).max()))
+            if hasattr(o, "h_matrix"):
+                e = tx.maxdiff(o.h_matrix, fresh.h_matrix)
+            else:
+                e = tx.maxdiff(o.aligned_source().points, fresh.aligned_source().points)
+            if e > 1e-8 * scale:
+                ctx.fail("retargeting_one_object_changed_another_live_copy", cls=type(o).__name__, err=e)
+
+
 def w_history(ctx, rng, i):
     import menpo.transform as mt
     import menpo.shape as ms
@@ -264,9 +287,22 @@ def w_history(ctx, rng, i):
             except NotImplementedError:
                 pass
             continue
-        who.set_target(new_target(rng, who, kind, src))
+        # history: the same point array applied before and after the retarget (whatever the object remembers about
+        # its last input must not survive the retarget)
+        P = gen.points_inside_mesh(rng, src, np.asarray(who.source.trilist), 6, margin=0.08) if warp and kind != "ThinPlateSplines" else tx.probe(rng, d, 6)
+        before = who.apply(P)
+        nt = new_target(rng, who, kind, src)
+        who.set_target(nt)
+        after = who.apply(P)
+        try:
+            fresh_after = align.rebuild(type(who), who.source.copy(), nt.copy(), align.SHADOW[id(who)][1]).apply(P.copy())
+            if tx.maxdiff(after, fresh_after) > 1e-7 * max(1.0, float(np.abs(fresh_after).max())):
+                ctx.fail("same_points_applied_after_retarget_give_a_stale_result", cls=type(who).__name__, mech=kind, err=tx.maxdiff(after, fresh_after))
+        except KeyError:
+            pass
         accepted += 1
         shape.append("set")
+        audit_live(ctx, live, who)
     # every live object (copies included) still retargets like a fresh one
     for who in live:
         who.set_target(new_target(rng, who, kind, src))
